@@ -453,13 +453,13 @@ def ob_scaling(ctx: Ctx) -> Outcome:
             wits.append(Witness(what=f"parse: RecursionError at bracket depth {depth} (cap is 100)", key=f"parse|brackets|recursion|{'within' if depth < 100 else 'beyond'}-cap", input=depth, confirmed=True))
         except Exception as e:  # noqa: BLE001
             wits.append(Witness(what=f"parse: {type(e).__name__} at bracket depth {depth}", key=f"parse|brackets|{type(e).__name__}", input=depth, confirmed=True))
-    for depth in (100, 300, 900):
+    for depth in (100, 300, 900, 1200, 3000):
         n += 1
         t = "===D===\n" + "".join("  " * i + f"B{i}:\n" for i in range(depth)) + "===END===\n"
         r = read_all(t)
         if r:
             wits.append(Witness(what=f"indentation depth {depth}: {r}", key=f"indent|{r.split('|')[1].split(':')[0]}", input=depth, confirmed=True))
-    extra = dict(bound=f"{len(fams)} input families {[f[0] for f in fams]} at sizes 500, 1000, 2000, 4000, 8000 through the four readers (best of 2 runs; a family fails when the 8000-size run takes >= 50 ms and more than 96x the 500-size run); bracket depths 50..2000 and indentation depths 100..900 for the recursion clause", evaluations=n, distinct_nontrivial=n, rule="a case is one (family, reader) timing series or one depth probe", timings_ms=table)
+    extra = dict(bound=f"{len(fams)} input families {[f[0] for f in fams]} at sizes 500, 1000, 2000, 4000, 8000 through the four readers (best of 2 runs; a family fails when the 8000-size run takes >= 50 ms and more than 96x the 500-size run); bracket depths 50..2000 and indentation depths 100..3000 for the recursion clause", evaluations=n, distinct_nontrivial=n, rule="a case is one (family, reader) timing series or one depth probe", timings_ms=table)
     if wits:
         return Outcome.refuted("real readers, wall clock", wits, **extra)
     return Outcome.ok("real readers, wall clock", **extra)
